@@ -220,6 +220,12 @@ def check_interp_surf(case, ctx):
         ctx.check(len(got) == len(want) and all(abs(a - b) <= 1e-12 for a, b in zip(got, want)), "knot-vector",
                   "knot vector %s %r, averaging of the %s parameters gives %r" % (name, list(got), "centripetal" if cen else "chord-length", want))
     big = 1.0 + max(abs(c) for q in Q for c in q)
+    # the sampled grid of the fitted surface runs from corner to corner of the data
+    srf.sample_size = 3
+    grid = [list(q) for q in srf.evalpts]
+    ctx.check(len(grid) == 9 and all(all(abs(a_ - b_) <= 1e-7 * big for a_, b_ in zip(g_, q_)) for g_, q_ in
+                                     ((grid[0], Q[0]), (grid[2], Q[nv - 1]), (grid[6], Q[nv * (nu - 1)]), (grid[8], Q[-1]))), "interpolation",
+              "the 3x3 sampled grid of the fitted surface does not have the data corners as its corners: %r" % ([grid[i] for i in (0, 2, 6, 8)] if len(grid) == 9 else len(grid)))
     for i in range(nu):
         for j in range(nv):
             q = Q[j + nv * i]
@@ -344,6 +350,11 @@ def check_approx_surf(case, ctx):
     ctx.check(list(srf.degree) == [pu, pv], "degree", "requested degrees %r, got %r" % ([pu, pv], list(srf.degree)))
     ctx.check(list(srf.cpsize) == [hu, hv], "ctrlpts-count", "requested net %r, got %r" % ([hu, hv], list(srf.cpsize)))
     big = 1.0 + max(abs(c) for q in Q for c in q)
+    srf.sample_size = 3
+    grid = [list(q) for q in srf.evalpts]
+    ctx.check(len(grid) == 9 and all(all(abs(a_ - b_) <= 1e-10 * big for a_, b_ in zip(g_, q_)) for g_, q_ in
+                                     ((grid[0], Q[0]), (grid[2], Q[nv - 1]), (grid[6], Q[nv * (nu - 1)]), (grid[8], Q[-1]))), "corner-points",
+              "the 3x3 sampled grid of the fitted surface does not have the data corners as its corners: %r" % ([grid[i] for i in (0, 2, 6, 8)] if len(grid) == 9 else len(grid)))
     for (u, v), q in (((0.0, 0.0), Q[0]), ((0.0, 1.0), Q[nv - 1]), ((1.0, 0.0), Q[nv * (nu - 1)]), ((1.0, 1.0), Q[-1])):
         got = srf.evaluate_single((u, v))
         ctx.check(all(abs(a - b) <= 1e-10 * big for a, b in zip(got, q)), "corner-points", "corner (%r,%r) is %r, data corner %r" % (u, v, got, q))
